@@ -360,6 +360,9 @@ class SimSocket:
             k = self.net.frng.randint(1, k - 1)
             self.net.stats["frag"] += 1
         out = bytes(self.rx[:k])
+        if flags & rsock.MSG_PEEK:
+            self.s.sev("peek", self.conn, self.side, n, k)
+            return out
         del self.rx[:k]
         self.s.sev("recv", self.conn, self.side, n, k)
         return out
@@ -541,6 +544,46 @@ class SimSelector:
 
     def __exit__(self, *a):
         self.close()
+
+
+class SelectFacade:
+    """stands in for the ``select`` module attribute of Pyro5 modules: select() over the in-memory sockets (a changed tree that
+    polls a connection would otherwise reach the real select() with simulated descriptor numbers)"""
+
+    def __init__(self, net):
+        import select as _rselect
+        self._net = net
+        self._real = _rselect
+        self.error = _rselect.error
+
+    def __getattr__(self, name):
+        if name in ("poll", "epoll", "devpoll", "kqueue"):
+            raise AttributeError("select.%s has no simulated counterpart" % name)
+        return getattr(self._real, name)
+
+    @staticmethod
+    def _sock(fo):
+        s = getattr(fo, "sock", fo)
+        if not isinstance(s, SimSocket):
+            raise ValueError("select() on something that is not a simulated socket: %r" % (fo,))
+        if s.closed:
+            raise OSError(errno.EBADF, "Bad file descriptor")
+        return s
+
+    def select(self, rlist, wlist, xlist, timeout=None):
+        s = self._net.s
+        s.yield_point("select.select")
+        rl, wl = list(rlist), list(wlist)
+
+        def ready():
+            return [fo for fo in rl if self._sock(fo).readable()]
+        for fo in wl:
+            self._sock(fo)
+        r = ready()
+        if not r and not wl and (timeout is None or timeout > 0):
+            s.block(lambda: bool(ready()), timeout, "select.select")
+            r = ready()
+        return r, wl, []
 
 
 class SelectorsFacade:
